@@ -256,9 +256,10 @@ func TestBoundedB5(t *testing.T) {
 				if err != nil && strings.HasPrefix(err.Error(), "PANIC") {
 					break
 				}
-				if (err == nil) != (len(want) == 0) {
+				// a wrong verdict is C07's business; the order/determinism comparisons of C12 go on regardless
+				verdictBad := (err == nil) != (len(want) == 0)
+				if verdictBad && k == 0 {
 					r["C07"].violation("verdict", id, "merge succeeded=%v, conflicts by the statement: %v (err=%v)", err == nil, want, firstLine(fmt.Sprint(err)))
-					break
 				}
 				if err != nil && m != nil {
 					r["C07"].violation("partial-model", id, "error together with a model")
@@ -267,7 +268,9 @@ func TestBoundedB5(t *testing.T) {
 					errs := errorList(err)
 					if k == 0 {
 						firstErrs = errs
-						checkErrorSet(r, id, files, want, errs)
+						if !verdictBad {
+							checkErrorSet(r, id, files, want, errs)
+						}
 					} else if strings.Join(errs, "\n") != strings.Join(firstErrs, "\n") {
 						r["C12"].violation("error-list-varies-between-invocations", id, "two invocations on the same file list return different error lists:\n  %v\n  %v", firstErrs, errs)
 					}
@@ -276,7 +279,9 @@ func TestBoundedB5(t *testing.T) {
 				d := mergedDigest(m)
 				if k == 0 {
 					firstDigest = d
-					checkMerged(r, id, files, m)
+					if !verdictBad {
+						checkMerged(r, id, files, m)
+					}
 				} else if d != firstDigest {
 					r["C12"].violation("model-varies-between-invocations", id, "two invocations return different models")
 				}
